@@ -220,6 +220,7 @@ def pools(tier):
                ("o1c:Ovld,1pos,n<=1,k=3,call_next", "ovld", H(1, 1), ["x"], (0, 1), 3, ("cn",), 3),
                ("o2:Ovld,2pos,n=1,k=3", "ovld", H(1, 1), ["xy"], (0,), 3, ("plain",), 3),
                ("o3:Ovld,mixed shapes (optional positional / keyword come and go),n=1,k=3", "ovld", H(1, 1), ["x", "xy", "x*k?"], (0,), 3, ("plain",), 3),
+               ("o5:Ovld,1pos,n<=2,k=2 plain methods + a recursive walker over lists", "ovld", H(1, 2), ["x"], (0, 1), 2, ("rec+",), 4),
                ("t1:table,1pos,n<=2,k=3,prio", "map", H(1, 2), ["x"], (0, 1), 3, ("plain",), 3),
                ("t2:table,2pos,n=1,k=3", "map", H(1, 1), ["xy"], (0,), 3, ("plain",), 4)]
     else:
@@ -227,6 +228,7 @@ def pools(tier):
                ("O1k4:Ovld,1pos,n<=2,k=4", "ovld", H(1, 2), ["x"], (0, 1), 4, ("plain",), 5),
                ("O2:Ovld,2pos,n<=2,k=3", "ovld", H(1, 2), ["xy"], (0,), 3, ("plain", "cn"), 5),
                ("O3:Ovld,mixed shapes,n<=2,k=3", "ovld", H(1, 2), ["x", "xy", "xy?", "x*k?", "x*k", "x?"], (0,), 3, ("plain", "cn"), 5),
+               ("O5:Ovld,1pos,n<=3,k=3 plain methods + a recursive walker over lists", "ovld", H(1, 3), ["x"], (0, 1), 3, ("rec+",), 5),
                ("T1:table,1pos,n<=3,k<=4,prio", "map", H(1, 3), ["x"], (0, 1), 4, ("plain",), 6),
                ("T2:table,2pos,n<=2,k=3", "map", H(1, 2), ["xy"], (0, 1), 3, ("plain",), 6)]
     for name, kind, hiers, shapes, prios, k, bodies, depth in cfg:
@@ -253,11 +255,18 @@ def run_pool(acc, space, kind, h, descs, body, depth):
         sigma = [(tuple(h.instances[a] for a in args), {k: h.instances[v] for k, v in kw.items()}) for args, kw in calls]
         if body != "plain" and any(d[0] not in ("x", "xy", "xyz") for d in descs):
             return
+    elif kind == "ovld" and body == "rec+":
+        # plain methods + one rewritten method that recurses into list elements: the rewritten method's view of the
+        # function must follow every later change made by methods that are not themselves rewritten
+        mspecs = spaces.mspecs_of(descs, body=None)
+        mspecs.append({"id": len(mspecs), "shape": gen.SHAPES["x"], "types": {"x": "list"}, "prio": 0, "body": "rec"})
+        names = names + [(f"[{t[0]}]",) for t in names]
+        sigma = sigma_from_names(h, names)
     elif kind == "ovld":
         mspecs = spaces.mspecs_of(descs, body=None if body == "plain" else body)
         sigma = [(tuple(h.instances[a] for a in t), {}) for t in names]
     if kind == "ovld":
-        model = OvldModel(h.classes, mspecs, sigma)
+        model = OvldModel(dict(h.classes, list=list), mspecs, sigma)
         casebase = {"space": space, "kind": kind, "hier": h.spec(), "methods": mspecs, "sigma": [list(t) for t in names]}
     else:
         pool = [(d[1], d[2]) for d in descs]
@@ -274,6 +283,18 @@ def run_pool(acc, space, kind, h, descs, body, depth):
     acc.h("programs_per_space", space)
     if acc.n["programs"] % 25 == 1:
         acc.sample(dict(casebase, states=st["states"], transitions=st["transitions"], max_depth=st["max_depth"]))
+
+
+def sigma_from_names(h, names):
+    def val(a):
+        return [h.instances[a[1:-1]]] if a.startswith("[") else h.instances[a]
+
+    sigma = []
+    for t in names:
+        args = tuple(val(a) for a in t if "=" not in a)
+        kw = {a.split("=")[0]: h.instances[a.split("=")[1]] for a in t if "=" in a}
+        sigma.append((args, kw))
+    return sigma
 
 
 def type_pools(tier):
@@ -334,12 +355,7 @@ def replay(case):
     op = tuple(case["op"])
     names = [tuple(t) for t in case["sigma"]]
     if case["kind"] == "ovld":
-        sigma = []
-        for t in names:
-            args = tuple(h.instances[a] for a in t if "=" not in a)
-            kw = {a.split("=")[0]: h.instances[a.split("=")[1]] for a in t if "=" in a}
-            sigma.append((args, kw))
-        model = OvldModel(h.classes, case["methods"], sigma)
+        model = OvldModel(dict(h.classes, list=list), case["methods"], sigma_from_names(h, names))
     else:
         model = MapModel(h.classes, [(tuple(t), p) for t, p in case["pool"]], names)
     obj = model.build(hist)
@@ -354,7 +370,8 @@ def main(tier):
         PROP, tier, "model_checking", merged, t0,
         rule="explicit-state BFS over register / unregister / call histories on a real Ovld, and register / lookup histories on "
              "the public MultiTypeMap, for every pool of k methods over the stated hierarchies that contains an identical-"
-             "signature pair or differing types; started from every subset of the pool pre-registered, never used and used "
+             "signature pair or differing types (also: plain methods + one rewritten method that recurses into list elements, "
+             "probed with list-wrapped arguments); started from every subset of the pool pre-registered, never used and used "
              "once; states = the library's own method table (with push-down ranks) + cache snapshot; oracle: every call "
              "equals the same call on a brand-new object built from the surviving methods in their original order",
         assumptions=["state abstraction tested by re-expanding a quarter of the re-reached states",
